@@ -188,4 +188,73 @@ theorem readAssign_last (ifs : Ifs) (text : List AttrChar) (n : Nat) :
     · have : ¬ rs.length ≤ n + 1 := by omega
       simp [he, this]
 
+/-! ## `input::read`: the one-pass reader against the item-wise Spec -/
+
+/-- the one-pass reader is the two-stage Spec: items of the whole input, cut at the first delimiter -/
+theorem readInput_eq_spec_aux (raw : Bool) (delim : Char) : ∀ (n : Nat) (s : List Char), s.length ≤ n →
+    readInput raw delim s = specReadInput raw delim s := by
+  intro n
+  induction n with
+  | zero =>
+    intro s hs
+    have : s = [] := List.eq_nil_of_length_eq_zero (by omega)
+    subst this
+    simp [readInput, specReadInput, readItems]
+  | succ n ih =>
+    intro s hs
+    cases s with
+    | nil => simp [readInput, specReadInput, readItems]
+    | cons c rest =>
+      have ihr := ih rest (by simp at hs; omega)
+      unfold specReadInput at ihr ⊢
+      rw [readInput.eq_def, readItems.eq_def]; simp only []
+      by_cases hd : (c == delim) = true
+      · simp [hd]
+      · simp only [hd, if_false, Bool.false_eq_true]
+        by_cases hb : (c == '\\' && !raw) = true
+        · simp only [hb, if_true]
+          cases rest with
+          | nil => simp [RItem.chars]
+          | cons d rest' =>
+            have ih2 := ih rest' (by simp at hs; omega)
+            unfold specReadInput at ih2
+            by_cases hn : (d == '\n') = true
+            · simp [hn, ih2, RItem.chars]
+            · simp [hn, ih2, RItem.chars]
+        · simp only [hb, if_false, Bool.false_eq_true]
+          simp [ihr, RItem.chars]
+
+theorem readInput_eq_specReadInput (raw : Bool) (delim : Char) (s : List Char) :
+    readInput raw delim s = specReadInput raw delim s :=
+  readInput_eq_spec_aux raw delim s.length s (Nat.le_refl _)
+
+/-- with `-r` there is nothing but ordinary characters and delimiters -/
+theorem readItems_raw (delim : Char) : ∀ (s : List Char),
+    readItems true delim s = s.map (fun c => if c == delim then RItem.delimiter else RItem.plain c)
+  | [] => rfl
+  | c :: rest => by
+    rw [readItems.eq_def]; simp only []; rw [readItems_raw delim rest]
+    by_cases hd : (c == delim) = true
+    · have : c = delim := by simpa using hd
+      simp [this]
+    · have : ¬ c = delim := by simpa using hd
+      simp [this]
+
+/-- quote removal of the logical line = the values of its items (backslashes and continuations gone) -/
+theorem removeQuotes_items (items : List RItem) :
+    removeQuotesAndStrip (items.flatMap RItem.chars) = items.flatMap RItem.value := by
+  induction items with
+  | nil => rfl
+  | cons i t ih =>
+    have happ : ∀ a b : List AttrChar, removeQuotesAndStrip (a ++ b) = removeQuotesAndStrip a ++ removeQuotesAndStrip b := by
+      intro a b
+      induction a with
+      | nil => rfl
+      | cons x xs ihx =>
+        simp only [removeQuotesAndStrip, List.cons_append, skipQuotes] at ihx ⊢
+        by_cases hq : x.isQuoting = true <;> simp [hq, strip, ihx]
+    rw [List.flatMap_cons, List.flatMap_cons, happ, ih]
+    cases i <;> simp [RItem.chars, RItem.value, removeQuotesAndStrip, skipQuotes, strip, plainChar, softChar,
+      readQuoting, readQuoted]
+
 end YashModel.Expansion
